@@ -17,7 +17,6 @@ import (
 	"errors"
 	"fmt"
 	"os"
-	"runtime"
 	"sort"
 	"strings"
 	"sync"
@@ -189,17 +188,9 @@ func (m *c06M) nfRule() kit.TTLRule {
 
 // arm installs the drawn fault for one operation on key (after padding the breaker).
 func (m *c06M) arm(fault, key string) {
-	if fault == "none" {
-		return
-	}
-	if !m.w.Env.Pad(m.w.Nodes, 15) {
+	if !m.w.ArmFault(fault, key) {
 		m.w.Abort("padding PING failed")
 	}
-	if fault == "outage" {
-		m.w.Env.Outage(true)
-		return
-	}
-	m.w.Env.Hook.Arm(fault, key, 1)
 }
 
 // disarm ends the fault and returns the trace of the operation.
@@ -281,6 +272,7 @@ func (m *c06M) read(ki, api int, dbFail bool, fault string) {
 
 	outage := fault == "outage"
 	m.noteFault(kit.Injected(tr))
+	m.w.NoteNth(fault, tr)
 	if outage && len(tr) > 0 {
 		m.noteFault(1)
 	}
@@ -323,7 +315,7 @@ func (m *c06M) read(ki, api int, dbFail bool, fault string) {
 	default:
 		alts = append(alts, miss)
 	}
-	writeFailed := c06Failed(tr, outage, kit.KSet) || c06Failed(tr, outage, kit.KSetNX)
+	writeFailed := kit.WriteFailed(tr, outage)
 
 	var chosen *alt
 	switch {
@@ -345,12 +337,6 @@ func (m *c06M) read(ki, api int, dbFail bool, fault string) {
 				chosen = &alts[i]
 			}
 		}
-	case kit.IsStoreErr(err) && writeFailed && dq == 1:
-		// the store failed after the query: reporting that failure is allowed
-		w.St.Class("read:store-error-after-query-reported")
-		w.Settle(map[string]kit.Want{key: {Loose: true}})
-		m.afterRead(ki)
-		return
 	}
 	if chosen == nil {
 		var want []string
@@ -373,8 +359,13 @@ func (m *c06M) read(ki, api int, dbFail bool, fault string) {
 	want := kit.Want{}
 	switch {
 	case writeFailed:
+		// the answer is unaffected (checked above); what the interrupted write left behind may be
+		// nothing or the entry, but never an entry with a TTL outside the rule
 		w.St.Class("read:cache-write-failed")
-		want.Loose = true
+		want = kit.Want{Loose: true, TTL: m.rule("row"), MarkerTTL: m.nfRule()}
+		if withExpire && gotExpire > 0 {
+			want.TTL = kit.Exact(kit.CeilSeconds(gotExpire), fmt.Sprintf("the query was told expire=%v, rounded up", gotExpire))
+		}
 	case chosen.hit:
 		if chosen.o.NotFound {
 			w.St.Class("read:hit-not-found-marker")
@@ -439,6 +430,7 @@ func (m *c06M) get(ki int, ctx bool, fault string) {
 	fmt.Fprintf(&w.Log, " %s(k%d%s)=%s", name, ki, c06Fault(fault), c06Res(err, out, m.errNF))
 	outage := fault == "outage"
 	m.noteFault(kit.Injected(tr))
+	m.w.NoteNth(fault, tr)
 	if outage && len(tr) > 0 {
 		m.noteFault(1)
 	}
@@ -498,6 +490,7 @@ func (m *c06M) invalidate(kis []int, change func(ki int) string, ctx bool, fault
 	fmt.Fprintf(&w.Log, " %s(%s%s)=%v", op, strings.Join(descr, ","), c06Fault(fault), err)
 	outage := fault == "outage"
 	m.noteFault(kit.Injected(tr))
+	m.w.NoteNth(fault, tr)
 	if outage && len(tr) > 0 {
 		m.noteFault(1)
 	}
@@ -555,16 +548,25 @@ func (m *c06M) set(ki int, v c06Row, api int, e time.Duration, fault string) {
 	fmt.Fprintf(&w.Log, " %s(k%d,%s%s%s)=%v", name, ki, v, arg, c06Fault(fault), err)
 	outage := fault == "outage"
 	m.noteFault(kit.Injected(tr))
+	m.w.NoteNth(fault, tr)
 	if outage && len(tr) > 0 {
 		m.noteFault(1)
 	}
-	if c06Failed(tr, outage, kit.KSet) || c06Failed(tr, outage, kit.KSetNX) {
+	if kit.WriteFailed(tr, outage) {
 		w.St.Class("set:cache-write-failed")
 		if err == nil {
 			w.Fail("%s(k%d): the cache write failed but the call reported success", name, ki)
 		}
-		// whatever was there stays; it may now be neither the database's nor the new value
-		w.Settle(map[string]kit.Want{key: {Keep: true}})
+		if kit.Saw(tr, kit.KSet) && len(tr) == 1 {
+			// the one write command did not happen: whatever was there stays
+			w.Settle(map[string]kit.Want{key: {Keep: true}})
+			return
+		}
+		// the write consists of several commands and was interrupted: old or new entry, lawful TTL
+		if w.FromTruth(key) != (kit.Outcome{OK: true, Val: v.String()}) {
+			w.Foreign[key] = true
+		}
+		w.Settle(map[string]kit.Want{key: {Loose: true, TTL: rule, MarkerTTL: rule}})
 		return
 	}
 	if err != nil {
@@ -614,6 +616,14 @@ func c06Res(err error, out c06Row, nf error) string {
 func c06DrawFault(t *rapid.T, every int, kinds ...string) string {
 	if rapid.IntRange(0, every).Draw(t, "faulty") != 0 {
 		return "none"
+	}
+	// by name (one chosen command of the call), or by position: the k-th command the call
+	// issues, whatever it is - alone ("nth") or with everything after it ("nth+")
+	switch rapid.IntRange(0, 3).Draw(t, "faultBy") {
+	case 0:
+		return fmt.Sprintf("nth:%d", rapid.SampledFrom([]int{1, 1, 2, 2, 2, 2, 3, 3, 3, 4}).Draw(t, "k"))
+	case 1:
+		return fmt.Sprintf("nth+:%d", rapid.SampledFrom([]int{1, 1, 2, 2, 2, 2, 3, 3, 3, 4}).Draw(t, "k"))
 	}
 	return rapid.SampledFrom(kinds).Draw(t, "fault")
 }
@@ -750,9 +760,12 @@ func c06Distinct(t *rapid.T, n int) []int {
 // ------------------------------------------------------------------ concurrent readers
 
 // G goroutines read one uncached key at once.  The fake database holds every query at a
-// gate until all readers are on their way, so on correct code the readers pile up behind
-// one query; a gauge inside the query closure records how many queries ran at a time.
-// Nothing is asserted about timing: the gauge must never exceed 1 whatever the schedule.
+// gate until the other readers have joined the query's flight (observed, see
+// kit.ParkedInFlight), so on correct code all readers pile up behind one query; a gauge
+// inside the query closure records how many queries ran at a time.  A fault plan places a
+// cache-store failure before, during or right after that query.  Nothing is asserted about
+// timing: which assertions apply depends on what was observed (strong mode: every reader was
+// seen parked in the flight of query 1), never on how long something took.
 func TestVerifC06CacheConcurrent(t *testing.T) {
 	st := verifkit.New("cache-concurrent")
 	defer st.Flush()
@@ -760,6 +773,7 @@ func TestVerifC06CacheConcurrent(t *testing.T) {
 		st.Eval()
 		m := c06New(t, st, "c")
 		w := m.w
+		env := w.Env
 		g := rapid.IntRange(2, 16).Draw(t, "G")
 		ki := 0
 		key := m.keys[ki]
@@ -771,11 +785,13 @@ func TestVerifC06CacheConcurrent(t *testing.T) {
 			delete(m.db, ki)
 		}
 		pre := rapid.SampledFrom([]string{"never-cached", "invalidated", "expired"}).Draw(t, "pre")
-		dbMode := rapid.SampledFrom([]string{"ok", "ok", "error-always", "error-first"}).Draw(t, "db")
+		dbMode := rapid.SampledFrom([]string{"ok", "ok", "ok", "error-always", "error-first"}).Draw(t, "db")
 		withExpire := rapid.Bool().Draw(t, "withExpire")
-		fmt.Fprintf(&w.Log, " G=%d row=%v pre=%s db=%s withExpire=%v:", g, rowExists, pre, dbMode, withExpire)
+		plan := rapid.SampledFrom(kit.Plans).Draw(t, "faultPlan")
+		fmt.Fprintf(&w.Log, " G=%d row=%v pre=%s db=%s withExpire=%v plan=%s:", g, rowExists, pre, dbMode, withExpire, plan)
 		st.Class("pre:" + pre)
 		st.Class("db:" + dbMode)
+		st.Class("plan:" + plan)
 		w.Guard(func() {
 			switch pre {
 			case "invalidated":
@@ -787,6 +803,10 @@ func TestVerifC06CacheConcurrent(t *testing.T) {
 			}
 			if w.Cached(key).Present {
 				w.Fail("harness: key still cached before the concurrent round")
+			}
+			// keep the per-address breaker closed: up to G commands may be failed in this round
+			if plan != kit.PlanNone && !env.Pad(w.Nodes, 12*g+15) {
+				w.Abort("padding PING failed")
 			}
 		})
 		if w.Dead {
@@ -812,6 +832,9 @@ func TestVerifC06CacheConcurrent(t *testing.T) {
 			}
 			stamp := nq.Add(1)
 			<-gate
+			if plan == kit.PlanOutageDuring && stamp == 1 {
+				env.Outage(true) // the store goes down while the query runs, and stays down
+			}
 			var res qres
 			res.stamp = stamp
 			switch {
@@ -830,6 +853,9 @@ func TestVerifC06CacheConcurrent(t *testing.T) {
 			inflight.Add(-1)
 			return res.err
 		}
+		if plan == kit.PlanOutageBefore {
+			env.Outage(true)
+		}
 		outs := make([]c06Row, g)
 		errs := make([]error, g)
 		var started atomic.Int64
@@ -846,15 +872,16 @@ func TestVerifC06CacheConcurrent(t *testing.T) {
 				}
 			}(i)
 		}
-		// let the readers arrive: wait (bounded) until all have started and a query is held at
-		// the gate, then give the stragglers a moment.  Only the amount of sharing depends on this.
-		deadline := time.Now().Add(5 * time.Second)
-		for (started.Load() < int64(g) || nq.Load() == 0) && time.Now().Before(deadline) {
-			runtime.Gosched()
-		}
-		settle := time.Now().Add(2 * time.Millisecond)
-		for time.Now().Before(settle) && maxInflight.Load() < 2 {
-			runtime.Gosched()
+		strong := false
+		if plan != kit.PlanOutageBefore {
+			strong = kit.AwaitReaders(g, started.Load, nq.Load, maxInflight.Load)
+			switch plan {
+			case kit.PlanWriteBack:
+				env.Hook.Arm(kit.KSet, key, -1)
+				env.Hook.Arm(kit.KSetNX, key, -1)
+			case kit.PlanWaiterGet: // the leader's GET is over: from now on every GET of the key fails
+				env.Hook.Arm(kit.KGet, key, -1)
+			}
 		}
 		close(gate)
 		done := make(chan struct{})
@@ -862,56 +889,126 @@ func TestVerifC06CacheConcurrent(t *testing.T) {
 		select {
 		case <-done:
 		case <-time.After(60 * time.Second):
+			env.Outage(false)
+			env.Hook.Disarm()
 			st.Class("inconclusive:readers-did-not-return")
 			st.Note("inconclusive: concurrent readers did not return within 60 s; %s", w.Log.String())
 			return
 		}
-		w.Env.Hook.Take()
+		env.Outage(false)
+		env.Hook.Disarm()
+		tr := env.Hook.Take()
 		for _, e := range errs {
 			w.Guard(func() { w.CheckInfra("concurrent Take", e) })
 		}
 		if w.Dead {
 			return
 		}
-		fmt.Fprintf(&w.Log, " queries=%d maxInFlight=%d", nq.Load(), maxInflight.Load())
+		nGet, nSetFailed, nNXFailed, nGetFailed := 0, 0, 0, 0
+		down := plan == kit.PlanOutageBefore
+		for _, c := range tr {
+			switch c.Kind {
+			case kit.KGet:
+				nGet++
+				// during-query outage: the leader's GET (the first) preceded the outage, all later ones met it
+				if c.Injected || down || (plan == kit.PlanOutageDuring && nGet > 1) {
+					nGetFailed++
+				}
+			case kit.KSet:
+				if c.Injected || plan == kit.PlanOutageDuring {
+					nSetFailed++
+				}
+			case kit.KSetNX:
+				if c.Injected || plan == kit.PlanOutageDuring {
+					nNXFailed++
+				}
+			}
+		}
+		st.ClassN("fault:write-back-SET-failed", nSetFailed)
+		st.ClassN("fault:marker-SETNX-failed", nNXFailed)
+		st.ClassN("fault:GET-failed", nGetFailed)
+		fmt.Fprintf(&w.Log, " queries=%d maxInFlight=%d allJoined=%v failed(set=%d,setnx=%d,get=%d)", nq.Load(), maxInflight.Load(), strong, nSetFailed, nNXFailed, nGetFailed)
 		if mx := maxInflight.Load(); mx > 1 {
 			w.Fail("concurrent reads of one uncached key ran %d database queries at the same time (at most one at a time)", mx)
 		}
-		// every reader received the result of a query that ran (directly, shared, or through the entry it cached)
 		got := map[string]int{}
 		for i := 0; i < g; i++ {
-			ok := false
-			for _, r := range results {
-				switch {
-				case errs[i] == nil:
-					ok = ok || (r.err == nil && outs[i] == r.row)
-				case errors.Is(errs[i], m.errNF):
-					ok = ok || errors.Is(r.err, m.errNF)
-				case errors.Is(errs[i], c06ErrDB):
-					ok = ok || errors.Is(r.err, c06ErrDB)
-				}
-			}
 			got[c06Res(errs[i], outs[i], m.errNF)]++
-			if !ok {
-				w.Fail("reader %d of %d received %s, which is not the result of any of the %d queries that ran (%v)",
-					i, g, c06Res(errs[i], outs[i], m.errNF), len(results), results)
-			}
 		}
 		fmt.Fprintf(&w.Log, " got=%v", got)
-		st.Class(fmt.Sprintf("queries:%d", min(int(nq.Load()), 3)))
-		if len(got) == 1 {
-			st.Class("readers:all-same-result")
+		same := func(i int, r qres) bool {
+			switch {
+			case errs[i] == nil:
+				return r.err == nil && outs[i] == r.row
+			case errors.Is(errs[i], m.errNF):
+				return errors.Is(r.err, m.errNF)
+			case errors.Is(errs[i], c06ErrDB):
+				return errors.Is(r.err, c06ErrDB)
+			}
+			return false
 		}
+		describe := func(r qres) string {
+			if r.err != nil {
+				return c06Res(r.err, c06Row{}, m.errNF)
+			}
+			return r.row.String()
+		}
+		switch {
+		case plan == kit.PlanOutageBefore:
+			// "a failing cache store (other than a miss) is reported without querying the database"
+			st.Class("mode:store-down-before")
+			if nq.Load() != 0 {
+				w.Fail("the cache store was down before the readers started, yet %d database queries ran (a failing cache store is reported without querying the database)", nq.Load())
+			}
+			for i := 0; i < g; i++ {
+				if errs[i] == nil || errors.Is(errs[i], m.errNF) || errors.Is(errs[i], c06ErrDB) {
+					w.Fail("the cache store was down before the readers started, reader %d returned %s instead of reporting the store failure", i, c06Res(errs[i], outs[i], m.errNF))
+				}
+			}
+		case strong:
+			// every reader was seen inside the flight of query 1 while that query was held
+			st.Class("mode:all-readers-joined-the-flight")
+			if plan != kit.PlanNone {
+				st.Class("mode:all-joined+" + plan)
+			}
+			if nq.Load() != 1 {
+				w.Fail("all %d readers had joined the flight of the first query, yet %d database queries ran", g, nq.Load())
+			}
+			q1 := results[1]
+			for i := 0; i < g; i++ {
+				if !same(i, q1) {
+					w.Fail("reader %d of %d returned %s; it overlapped the one database query, which returned %s, and must receive that query's result whatever happens to the cache store (plan %s; readers got %v)",
+						i, g, c06Res(errs[i], outs[i], m.errNF), describe(q1), plan, got)
+				}
+			}
+		default:
+			// not every reader was seen joining: a late reader starts its own read (and may meet the fault)
+			st.Class("mode:some-readers-late")
+			for i := 0; i < g; i++ {
+				ok := false
+				for _, r := range results {
+					ok = ok || same(i, r)
+				}
+				if !ok && kit.IsStoreErr(errs[i]) && nGetFailed > 0 {
+					ok = true // a late reader whose own GET met the fault
+				}
+				if !ok {
+					w.Fail("reader %d of %d received %s, which is not the result of any of the %d queries that ran (%v)",
+						i, g, c06Res(errs[i], outs[i], m.errNF), len(results), results)
+				}
+			}
+		}
+		st.Class(fmt.Sprintf("queries:%d", min(int(nq.Load()), 3)))
 		// what the round left in the cache is the result of one of its queries, with a lawful
-		// TTL; nothing after database errors only
-		s := w.Env.Lookup(w.Nodes, key)
+		// TTL; nothing after database errors only; on a healthy store something
+		s := env.Lookup(w.Nodes, key)
 		switch {
 		case !s.Present:
-			if dbMode == "ok" {
+			if dbMode == "ok" && plan == kit.PlanNone {
 				w.Fail("load suppression: after %d readers and %d queries nothing is cached under the key (healthy store)", g, nq.Load())
 			}
-		case dbMode == "error-always":
-			w.Fail("database errors are never cached: the store holds %q after a round in which every query failed", s.Raw)
+		case dbMode == "error-always" || plan == kit.PlanOutageBefore:
+			w.Fail("the store holds %q after a round in which no query succeeded (database errors are never cached)", s.Raw)
 		case s.TTL <= 0:
 			w.Fail("TTL clause: key %s is stored without a TTL, value %q", key, s.Raw)
 		case s.Raw == kit.Placeholder:
@@ -925,9 +1022,9 @@ func TestVerifC06CacheConcurrent(t *testing.T) {
 				w.Fail("the cache holds %q, which is not the result of any query of the round (%v)", s.Raw, results)
 			}
 		}
-		if int(nq.Load()) < g {
+		if (strong && g >= 2) || int(nq.Load()) < g && plan != kit.PlanOutageBefore {
 			st.Class("case:readers-shared-a-query")
-			st.NonTrivial(fmt.Sprintf("G=%d row=%v pre=%s db=%s withExpire=%v nodes=%d", g, rowExists, pre, dbMode, withExpire, len(m.conf.nodes)))
+			st.NonTrivial(fmt.Sprintf("G=%d row=%v pre=%s db=%s withExpire=%v nodes=%d plan=%s strong=%v", g, rowExists, pre, dbMode, withExpire, len(m.conf.nodes), plan, strong))
 		}
 	})
 }
